@@ -2,7 +2,7 @@
 
 Every function reachable from client bytes (client.rs, request.rs, readers, chunked_transfer::Decoder, and the response
 path that looks at request headers) runs from the MIR on adversarial inputs. A feasible path into a panic edge is a
-violation; every allocation primitive (vec::from_elem, reserve) must request at most 2 x bytes-received + 4096 bytes.
+violation; every allocation primitive (vec::from_elem, reserve) must request at most 2 x bytes-received + 64 KiB.
 """
 import z3
 from mirsym.values import *
@@ -63,7 +63,7 @@ def run(L, rep, tier, seed):
         ctx.event('witness', shape)
 
         def alloc_hook(it, n, where):
-            lim = cv.wire.pos * 2 + 4096
+            lim = cv.wire.pos * 2 + 65536
             site = [f for f in it.callstack if 'drop' in f or 'new_request' in f or 'read' in f][-1:] or ['?']
             label = 'allocation-bounded-by-received-bytes'
             if 'equal_reader' in site[0] and 'drop' in site[0]:
